@@ -482,10 +482,10 @@ func zzGenBuf(t *zzT, name string, maxN int) []byte {
 			if prop == "C08" {
 				names[rel] = append(names[rel], h8)
 			}
-			if ct.Strict {
-				// C08.b canonical strict decoding: accepted bytes are exactly the encoding of the decoded value
+			if ct.Strict && ct.Name == "Transaction" && ct.Pkg == "blockchain" {
+				// C08.b canonical strict decoding (the property states canonicity for transactions): accepted bytes are exactly the encoding of the decoded value
 				hc := fmt.Sprintf("zzH_C08_canon_%s", ct.Name)
-				fmt.Fprintf(sb, "// %s: DecodeStrict(b) == nil  =>  Encode(decoded) == b (canonical form only).\n//zz:opt loop=40\n//zz:quick N=4\n//zz:thorough N=6\nfunc %s(t *zzT) {\n", hc, hc)
+				fmt.Fprintf(sb, "// %s: DecodeStrict(b) == nil  =>  Encode(decoded) == b (canonical form only).\n//zz:opt loop=40 require=accepted,rejected\n//zz:quick N=13\n//zz:thorough N=16\nfunc %s(t *zzT) {\n", hc, hc)
 				canonLabel := "strictly accepted bytes are the canonical encoding"
 				if hasNested(ct, types) {
 					canonLabel += " (type has nested objects)"
